@@ -21,6 +21,10 @@
 //              one subset, no prior/filter: log-likelihood (reference AND STIR's own value) non-decreasing;
 //              one subset, no additive term, no prior/filter: sum_j s_j l_j == sum_b y_b after every update.
 //   restart  : all images of the resumed run == those of the uninterrupted run (bitwise; see assumptions for the one weakening).
+// Switched histories (run_switch): the SAME objective function + reconstruction objects run k sub-iterations with configuration A, then
+//   setters change them to configuration B (use_subset_sensitivities, num_subsets, recompute_sensitivity, prior + MAP model,
+//   normalisation), set_up() again, continue from the image after sub-iteration k: every (A, B) of the switch alphabet x every k;
+//   each continued sub-iteration == update formula of B, and == the run of freshly built objects of B resumed from the same image.
 #include "vmc.h"
 #include "stir_small.h"
 #include "ref_recon.h"
@@ -391,12 +395,287 @@ static void run_cfg(vmc::Ctx& ctx, const Cfg& c)
     ctx.sample(kase + " : " + vmc::str(K) + " sub-iterations match the EM formula on explicit P, " + vmc::str(K - 1) + " restarts reproduce the run; image max after last sub-iteration " + vmc::str(*std::max_element(U[K - 1].begin(), U[K - 1].end())));
 }
 
+// =====================================================================================================================
+// Switched histories: RE-USED objective-function and reconstruction objects whose configuration is changed by setters
+// between two set_up() calls.
+//   phase 1 : objects built with configuration A, set_up, sub-iterations 1..k                  -> image I_k
+//   switch  : setters on the SAME objects (use_subset_sensitivities, num_subsets, recompute_sensitivity, prior (+MAP model),
+//             normalisation) giving configuration B; start_subiteration_num = k+1; set_up again; L more sub-iterations -> S
+//   fresh   : objects freshly built with configuration B, start_subiteration_num = k+1, from I_k, L sub-iterations   -> F
+//   oracle  : every sub-iteration of S follows the update formula of configuration B (same reference, same tolerance as above);
+//             S == F (restartability: what a resumed run computes depends on the image and the configuration, not on what the
+//             objects were used for before); S non-negative and finite.
+// The measured data y are those of phase 1 (the data object is kept); normalisation factors n are those of B.
+static std::string nclass(int N) { return N == 1 ? "1" : N == 2 ? "2" : "many"; }
+static std::string switch_class(const Cfg& a, const Cfg& b, int rs)
+{
+  std::string s;
+  auto add = [&](const std::string& t) { s += (s.empty() ? "" : ",") + t; };
+  if (a.uss != b.uss) add("uss" + vmc::str(a.uss) + "to" + vmc::str(b.uss));
+  if (a.N != b.N) add("N" + nclass(a.N) + "to" + nclass(b.N));
+  if (a.prior != b.prior || a.map != b.map) add("prior");
+  if (a.norm != b.norm) add("norm");
+  if (rs >= 0) add("recompute" + vmc::str(rs));
+  return s.empty() ? "none" : s;
+}
+static std::string switch_str(const Cfg& a, const Cfg& b, int recA, int rs, int k, int L)
+{
+  return "sw=1;" + cfg_str(a) + ";k=" + vmc::str(k) + ";L=" + vmc::str(L) + ";recA=" + vmc::str(recA) + ";rs=" + vmc::str(rs) + ";to_uss=" + vmc::str(b.uss) + ";to_N=" + vmc::str(b.N)
+         + ";to_prior=" + vmc::str(b.prior) + ";to_map=" + vmc::str(b.map) + ";to_norm=" + vmc::str(b.norm);
+}
+
+// rs: -1 = set_recompute_sensitivity is not called at the switch, 0/1 = it is called with that value
+static void run_switch(vmc::Ctx& ctx, const Cfg& a, const Cfg& b, int recA, int rs, int k, int L)
+{
+  const std::string kase = switch_str(a, b, recA, rs, k, L);
+  ctx.current("C07", kase);
+  World& w = world(a.g, a.sym);
+  const Model mA = make_model(w, a.norm, a.add, a.data);
+  Model mB = make_model(w, b.norm, a.add, a.data);
+  mB.y = mA.y; // the measured data stay what they are
+  const std::string sw = switch_class(a, b, rs);
+  const std::string cls = "switch=" + sw + ";" + cfg_class(b);
+  const std::string prefix = ctx.tmpdir + "/c07s_" + vmc::str((int)getpid());
+  const std::vector<float> init = image_pattern(w, a.start);
+  const bool identity = sw == "none";
+
+  // ---------------- phase 1: configuration A, sub-iterations 1..k
+  Setup sA; sA.N = a.N; sA.sym = a.sym; sA.use_subset_sens = a.uss; sA.prior = a.prior;
+  Built bo; Recon r; std::string err; bool ok = true;
+  if (small::throws(
+          [&] {
+            bo = build_objective(w, mA, sA);
+            bo.obj->set_recompute_sensitivity(recA != 0);
+            configure(r, a, bo, k, 1, prefix, false);
+            shared_ptr<Target> target = to_image(w, init);
+            if (r.set_up(target) != Succeeded::yes || r.reconstruct(target) != Succeeded::yes) ok = false;
+          },
+          &err))
+    ok = false;
+  ctx.count("traces_validated_against_impl");
+  ctx.count("transitions", (long long)r.snaps.size());
+  if (!ok || (int)r.snaps.size() != k)
+    {
+      ctx.count("rejected_configs"); ctx.count("switch_rejected_before_the_switch");
+      ctx.observe("switched history: phase 1 rejected: " + kase + " : " + err.substr(0, 160));
+      return;
+    }
+  const std::vector<float> Ik = r.snaps.back();
+
+  // ---------------- the switch: setters on the same objects, set_up again, continue
+  std::vector<std::vector<float>> S;
+  shared_ptr<ProjDataInMemory> normdataB; // keep alive
+  ok = true; err.clear();
+  const bool threw = small::throws(
+      [&] {
+        if (b.uss != a.uss) bo.obj->set_use_subset_sensitivities(b.uss != 0);
+        if (b.N != a.N) r.set_num_subsets(b.N);
+        if (rs >= 0) bo.obj->set_recompute_sensitivity(rs != 0);
+        if (b.prior != a.prior || b.map != a.map)
+          {
+            if (b.prior != a.prior) { bo.prior = make_prior(w, b.prior); bo.obj->set_prior_sptr(bo.prior); }
+            if (b.prior) r.set_MAP_model(b.map ? "multiplicative" : "additive");
+          }
+        if (b.norm != a.norm)
+          {
+            if (b.norm)
+              {
+                normdataB = projdata_from(w, mB.n);
+                bo.obj->set_normalisation_sptr(shared_ptr<BinNormalisation>(new BinNormalisationFromProjData(normdataB)));
+              }
+            else bo.obj->set_normalisation_sptr(shared_ptr<BinNormalisation>(new TrivialBinNormalisation));
+          }
+        r.set_num_subiterations(k + L);
+        r.set_start_subiteration_num(k + 1);
+        r.set_save_interval(k + L);
+        r.snaps.clear();
+        shared_ptr<Target> target = to_image(w, Ik);
+        if (r.set_up(target) != Succeeded::yes) { ok = false; err = "set_up returned Succeeded::no"; return; }
+        if (r.reconstruct(target) != Succeeded::yes) { ok = false; err = "reconstruct returned Succeeded::no"; return; }
+        S = r.snaps;
+      },
+      &err);
+  if (threw) ok = false;
+  ctx.count("traces_validated_against_impl");
+  ctx.count("transitions", (long long)r.snaps.size());
+
+  // ---------------- fresh objects of configuration B from the same image
+  std::vector<std::vector<float>> F; Built bf; std::string errF; bool okF = true;
+  {
+    Setup sB; sB.N = b.N; sB.sym = b.sym; sB.use_subset_sens = b.uss; sB.prior = b.prior;
+    Recon rf;
+    if (small::throws(
+            [&] {
+              bf = build_objective(w, mB, sB);
+              bf.obj->set_recompute_sensitivity(rs >= 0 ? rs != 0 : recA != 0);
+              configure(rf, b, bf, k + L, k + 1, prefix + "_f", false);
+              shared_ptr<Target> target = to_image(w, Ik);
+              if (rf.set_up(target) != Succeeded::yes || rf.reconstruct(target) != Succeeded::yes) { okF = false; errF = "Succeeded::no"; return; }
+              F = rf.snaps;
+            },
+            &errF))
+      okF = false;
+    ctx.count("traces_validated_against_impl");
+    ctx.count("transitions", (long long)rf.snaps.size());
+  }
+  if (!okF)
+    { // STIR rejects configuration B as such
+      ctx.count("rejected_configs"); ctx.count("switch_rejected_configuration_after");
+      ctx.observe("switched history: configuration after the switch rejected for fresh objects: " + kase + " : " + errF.substr(0, 160));
+      return;
+    }
+  if (!ok)
+    {
+      if (threw && rs == 0)
+        { // documented: without 'recompute sensitivity' the (subset) sensitivity file names have to be given; the re-used object has
+          // sensitivities in memory and STIR reports the request as an error (rule 4: a rejection, not a failure)
+          ctx.count("rejected_configs"); ctx.count("switch_rejected_recompute_off_on_reused_object");
+          ctx.observe("set_recompute_sensitivity(false) on an objective function that was set up before is rejected by set_up(): " + err.substr(0, 160));
+          return;
+        }
+      ctx.violation("clause=restart;kind=reused_objects_error;" + cls, kase, "after the switch (" + sw + ") at sub-iteration " + vmc::str(k) + " the re-used objects fail (" + err.substr(0, 240) + ") while freshly built objects of that configuration run");
+      return;
+    }
+  ctx.count("evaluations");
+  ctx.count("switch_cases");
+  ctx.count(identity ? "switch_cases_identity_re_set_up_only" : "switch_cases_configuration_changed");
+  if (a.uss != b.uss) ctx.count(b.uss ? "switch_cases_uss_0_to_1" : "switch_cases_uss_1_to_0");
+  if (a.uss == 0 && b.uss == 1 && b.N >= 3) ctx.count("switch_cases_uss_0_to_1_with_3_or_more_subsets");
+  if (a.N != b.N) ctx.count(b.N > a.N ? "switch_cases_more_subsets" : "switch_cases_fewer_subsets");
+  if (a.prior != b.prior) ctx.count("switch_cases_prior_changed");
+  if (a.norm != b.norm) ctx.count("switch_cases_normalisation_changed");
+  if (rs >= 0) ctx.count("switch_cases_recompute_setter_called");
+  if ((int)S.size() != L || (int)F.size() != L)
+    { ctx.violation("clause=loop;" + cls, kase, "continuation produced " + vmc::str(S.size()) + " (re-used objects) / " + vmc::str(F.size()) + " (fresh objects) sub-iterations instead of " + vmc::str(L)); return; }
+  for (int i = 0; i < L; ++i) ctx.nontrivial(vmc::fnv(S[i].data(), S[i].size() * sizeof(float), vmc::fnv(kase + vmc::str(i))));
+  ctx.count("states", L);
+
+  // ---------------- non-negative, finite
+  for (int i = 0; i < L; ++i)
+    for (float x : S[i])
+      if (!(x >= 0) || !std::isfinite(x))
+        { ctx.violation("clause=nonnegative;history=reused_objects;" + cls, kase, "estimate after sub-iteration " + vmc::str(k + 1 + i) + " (re-used objects) contains " + vmc::str(x)); i = L; break; }
+
+  // ---------------- update formula of configuration B
+  const bool formula = !b.iuf && !b.iif;
+  if (formula)
+    {
+      std::vector<int> subset_of; std::string why;
+      if (small::throws([&] { subset_of = subset_of_bins(w, *bo.obj->get_projector_pair().get_symmetries_used(), b.N); }, &why))
+        { ctx.count("rejected_configs"); ctx.observe("no subset partition: " + kase + " " + why); return; }
+      std::vector<std::vector<double>> sens(b.N, std::vector<double>(w.nv, 0.0));
+      std::vector<double> sens_total(w.nv, 0.0);
+      for (size_t bb = 0; bb < w.nb; ++bb)
+        for (auto& e : w.P.rows[bb]) { sens[subset_of[bb]][e.first] += e.second / mB.n[bb]; sens_total[e.first] += e.second / mB.n[bb]; }
+      if (!b.uss) for (int s = 0; s < b.N; ++s) for (size_t j = 0; j < w.nv; ++j) sens[s][j] = sens_total[j] / b.N;
+      std::vector<float> lamk = Ik;
+      if (b.pos) model_initial_positivity(lamk, 0.000001F);
+      shared_ptr<GeneralisedPrior<Target>> ref_prior;
+      if (b.prior) { ref_prior = make_prior(w, b.prior); ref_prior->set_up(to_image(w, lamk)); }
+      for (int i = 0; i < L; ++i)
+        {
+          const int kk = k + 1 + i;
+          const std::vector<float>& prevf = i == 0 ? lamk : S[i - 1];
+          const std::vector<double> prev = to_double(prevf);
+          const int sub = (kk - 1 + b.ss) % b.N;
+          std::vector<double> pg;
+          if (b.prior)
+            {
+              shared_ptr<Target> g(w.im->get_empty_copy());
+              ref_prior->compute_gradient(*g, *to_image(w, prevf));
+              pg = to_double(flatf(*g));
+            }
+          StepInfo info;
+          const std::vector<double> ref = ref_step(w, mB, b, subset_of, sub, kk, prev, sens[sub], b.prior ? &pg : nullptr, info);
+          if (info.capped) ctx.count("steps_with_capped_quotient");
+          if (info.tie) { ctx.count("steps_screened_threshold_tie"); continue; }
+          ctx.count("steps_checked_against_formula");
+          ctx.count("switch_steps_checked_against_formula");
+          double mx = 0; for (double x : ref) mx = std::max(mx, std::fabs(x));
+          bool bad = false;
+          for (size_t j = 0; j < w.nv && !bad; ++j)
+            {
+              const double d = std::fabs((double)S[i][j] - ref[j]);
+              if (!(d <= 2e-4 * std::fabs(ref[j]) + 2e-6 * mx))
+                {
+                  ctx.violation("clause=update_formula;history=reused_objects;" + cls + ";uss=" + vmc::str(b.uss) + ";norm=" + vmc::str(b.norm) + ";add=" + vmc::str(b.add), kase,
+                                "objects used for " + vmc::str(k) + " sub-iteration(s), then switched (" + sw + ") and set up again: sub-iteration " + vmc::str(kk) + " (subset " + vmc::str(sub) + "), voxel "
+                                    + vmc::str(j) + ": STIR " + vmc::str(S[i][j]) + " reference " + vmc::str(ref[j]) + " (previous value " + vmc::str(prev[j]) + ", subset sensitivity " + vmc::str(sens[sub][j]) + ")");
+                  bad = true;
+                }
+              else if (sens[sub][j] <= 0 && S[i][j] != 0 && !b.rc)
+                { ctx.violation("clause=zero_where_no_sensitivity;history=reused_objects;" + cls, kase, "sub-iteration " + vmc::str(kk) + ": voxel " + vmc::str(j) + " has zero subset sensitivity but value " + vmc::str(S[i][j])); bad = true; }
+            }
+          if (bad) break;
+        }
+    }
+
+  // ---------------- restartability: re-used objects == fresh objects of the new configuration
+  for (int i = 0; i < L; ++i)
+    {
+      if (same_bits(S[i], F[i])) { ctx.count("switch_images_bitwise_equal_to_fresh_objects"); continue; }
+      double mx = 0; for (float x : F[i]) mx = std::max(mx, (double)std::fabs(x));
+      const double d = max_abs_diff(S[i], F[i]);
+      const double rel = mx > 0 ? d / mx : d;
+      if (rel <= 1e-5)
+        {
+          ctx.count("switch_images_equal_within_rounding_only");
+          ctx.observe("re-used objects not bitwise equal to fresh objects (relative difference " + vmc::str(rel) + "): " + kase);
+          continue;
+        }
+      ctx.violation("clause=restart;kind=reused_objects_differ_from_fresh;" + cls + ";rc=" + vmc::str(b.rc), kase,
+                    "objects used for " + vmc::str(k) + " sub-iteration(s), then switched (" + sw + "), set up again and resumed at sub-iteration " + vmc::str(k + 1) + ": image after sub-iteration " + vmc::str(k + 1 + i)
+                        + " differs from the run of freshly built objects of the same configuration resumed from the same image by " + vmc::str(d) + " (max value " + vmc::str(mx) + ")");
+      break;
+    }
+  if (!identity) ctx.sample("switched history " + kase + " : " + vmc::str(L) + " sub-iterations after the switch match the formula of the new configuration and the run of fresh objects", 9);
+}
+
+static void replay_switch(vmc::Ctx& ctx, const std::string& str)
+{
+  Cfg a = cfg_parse(str);
+  auto m = vmc::kv(str);
+  auto geti = [&](const char* key, int dflt) { return m.count(key) ? atoi(m[key].c_str()) : dflt; };
+  Cfg b = a;
+  b.uss = geti("to_uss", a.uss); b.N = geti("to_N", a.N); b.prior = geti("to_prior", a.prior); b.map = geti("to_map", a.map); b.norm = geti("to_norm", a.norm);
+  run_switch(ctx, a, b, geti("recA", 1), geti("rs", -1), geti("k", 1), geti("L", b.N + 1));
+}
+
+// numbers of subsets that OSMAPOSL accepts for a geometry (the others are "unbalanced": counted as rejected in the main enumeration)
+static std::vector<int> accepted_subsets(vmc::Ctx& ctx, int g, int sym)
+{
+  std::vector<int> out;
+  World& w = world(g, sym);
+  const Model m = make_model(w, 0, 1, 0);
+  for (int N = 1; N <= GEOMS[g].D / 2; ++N)
+    {
+      Cfg c; c.g = g; c.N = N; c.sym = sym; c.add = 1;
+      Setup s; s.N = N; s.sym = sym;
+      bool ok = true; std::string err;
+      if (small::throws(
+              [&] {
+                Built b = build_objective(w, m, s);
+                Recon r;
+                configure(r, c, b, 1, 1, ctx.tmpdir + "/c07p", false);
+                if (r.set_up(to_image(w, image_pattern(w, 0))) != Succeeded::yes) ok = false;
+              },
+              &err))
+        ok = false;
+      if (ok) out.push_back(N);
+    }
+  return out;
+}
+
 int main(int argc, char** argv)
 {
   vmc::Ctx ctx(argc, argv, "C07");
   small::quiet();
   ctx.rule = "history search: state = (configuration, k, image after sub-iteration k); transition = one real sub-iteration; every k is an interruption point from which a fresh "
-             "reconstruction is resumed; distinct_nontrivial = distinct (configuration, k, image content) reached";
+             "reconstruction is resumed; distinct_nontrivial = distinct (configuration, k, image content) reached; "
+             "switched histories: the SAME objective-function and reconstruction objects run k sub-iterations with configuration A, get setters called "
+             "(use_subset_sensitivities, num_subsets, recompute_sensitivity, prior + MAP model, normalisation) giving configuration B, are set up again and continue: "
+             "every (A, B) pair of the switch alphabet x every switch point k; each continued sub-iteration is a state/transition and is compared with the formula of B "
+             "and with freshly built objects of B resumed from the same image";
   ctx.assume("subset used at sub-iteration k is (k-1+start_subset) mod num_subsets (documented order, C06 checks the schedule itself); bins of a subset as defined by find_basic_vs_nums_in_subset + related view/segments");
   ctx.assume("tolerance of the formula: |STIR-ref| <= 2e-4 |ref| + 2e-6 max|ref| (float projections vs double reference); likelihood/count sums: 1e-5 resp. 2e-4 relative");
   ctx.assume("quotient y/ybar capped at 10000 and y<=1e-6*max(y of viewgram) treated as 0 (divide_and_truncate); monotonicity and count preservation are only demanded for steps where no quotient is capped (counted)");
@@ -404,7 +683,15 @@ int main(int argc, char** argv)
   ctx.assume("restart equality is bitwise, except: (i) when the resumed run has 'enforce initial positivity' on and the saved image contains exact zeros, set_up() lifts them to 1e-6*min positive value as documented, "
              "then equality within 1e-4*max is demanded; (ii) a non-bitwise difference below 1e-5*max is recorded as an observation, not a violation");
   ctx.assume("randomised subset order is not part of the restart clause (fresh permutation per run)");
-  if (ctx.replaying()) { run_cfg(ctx, cfg_parse(ctx.replay)); return ctx.finish(); }
+  ctx.assume("switched histories: the measured data object is kept across the switch (y of the configuration before), normalisation factors / prior / subsets / sensitivities are those of the "
+             "configuration after; re-used objects must give bitwise the images of freshly built objects (difference below 1e-5*max: observation only); "
+             "set_recompute_sensitivity(false) on an objective function that holds sensitivities from an earlier set_up() and has no sensitivity file names is rejected by STIR with error(): counted as rejected, not a failure");
+  if (ctx.replaying())
+    {
+      if (vmc::kv(ctx.replay).count("sw")) replay_switch(ctx, ctx.replay);
+      else run_cfg(ctx, cfg_parse(ctx.replay));
+      return ctx.finish();
+    }
   const bool th = ctx.thorough();
   uint64_t unit = 0;
   const int ngeom = th ? 4 : 2;
@@ -450,6 +737,66 @@ int main(int argc, char** argv)
                     if (th || (start == 1 && data == 0)) { Cfg c = base; c.files = 1; if (!visit(c)) return ctx.finish(); if (th) { c.iif = 1; c.rc = 1; if (!visit(c)) return ctx.finish(); } }
                   }
     }
+  // (4) switched histories on RE-USED objects (see run_switch): work unit = one pair (configuration before, configuration after),
+  //     inside it EVERY switch point k = 1..3*N_before-1 of the run of the configuration before
+  {
+    static const int SPM[3][2] = { { 0, 0 }, { 1, 0 }, { 3, 1 } }; // no prior, quadratic/additive, RDP/multiplicative
+    // families of the fields that are not switched: add, start image, data, and (thorough) one option away from the defaults
+    struct Fam { int add, start, data, pos, rc, sym, filt; };
+    std::vector<Fam> fams;
+    fams.push_back({ 1, 1, 0, 1, 0, 1, 0 });
+    fams.push_back({ 0, 2, 1, 1, 0, 0, 0 }); // no additive term, start image with exact zeros, zero-count LORs, projector symmetries off (more numbers of subsets are balanced)
+    if (th)
+      {
+        fams.push_back({ 0, 2, 1, 1, 0, 1, 0 }); // as the previous one with symmetries
+        fams.push_back({ 1, 2, 0, 0, 0, 1, 0 }); // no initial positivity
+        fams.push_back({ 1, 1, 1, 1, 1, 1, 0 }); // relative-change clamps
+        fams.push_back({ 1, 1, 0, 1, 0, 0, 0 }); // additive term, projector symmetries off
+        fams.push_back({ 1, 1, 0, 1, 0, 1, 1 }); // both filters (re-used objects vs fresh objects only)
+      }
+    long long pairs = 0;
+    for (int g = 0; g < ngeom; ++g)
+      for (size_t fi = 0; fi < fams.size(); ++fi)
+        {
+          const Fam& fam = fams[fi];
+          const std::vector<int> Ns = accepted_subsets(ctx, g, fam.sym);
+          ctx.observe("switched histories: numbers of subsets accepted for geometry " + geom_str(GEOMS[g]) + (fam.sym ? " (projector symmetries on): " : " (projector symmetries off): ") + vmc::join(Ns));
+          const bool full = th && fi < 2; // all (before, after) pairs; otherwise the changes of one field, the pairs (uss, N) and the identity
+          for (int NA : Ns)
+            for (int ussA = 1; ussA >= 0; --ussA)
+              for (int pA = 0; pA < 3; ++pA)
+                for (int normA = 0; normA < 2; ++normA)
+                  {
+                    if (!th && pA == 2) continue; // quick: before-configurations without prior / quadratic; RDP appears as after-configuration
+                    Cfg a; a.g = g; a.N = NA; a.uss = ussA; a.prior = SPM[pA][0]; a.map = SPM[pA][1]; a.norm = normA;
+                    a.add = fam.add; a.start = fam.start; a.data = fam.data; a.pos = fam.pos; a.rc = fam.rc; a.sym = fam.sym; a.iuf = a.iif = fam.filt;
+                    for (int NB : Ns)
+                      for (int ussB = 1; ussB >= 0; --ussB)
+                        for (int pB = 0; pB < 3; ++pB)
+                          for (int normB = 0; normB < 2; ++normB)
+                            {
+                              const int nchanged = (NB != NA) + (ussB != ussA) + (pB != pA) + (normB != normA);
+                              const bool uss_and_N = nchanged == 2 && NB != NA && ussB != ussA;
+                              if (!full && nchanged > 1 && !uss_and_N) continue;
+                              Cfg b = a; b.N = NB; b.uss = ussB; b.prior = SPM[pB][0]; b.map = SPM[pB][1]; b.norm = normB;
+                              // set_recompute_sensitivity: (built with, setter at the switch); (1, not called) for every pair, the other
+                              // combinations for the identity and the changes of use_subset_sensitivities alone
+                              static const int REC[6][2] = { { 1, -1 }, { 1, 1 }, { 1, 0 }, { 0, -1 }, { 0, 1 }, { 0, 0 } };
+                              const int nrec = (nchanged == 0 || (nchanged == 1 && ussB != ussA)) ? (th ? 6 : 3) : 1;
+                              for (int ri = 0; ri < nrec; ++ri)
+                                {
+                                  const uint64_t u = unit++;
+                                  if (!ctx.mine(u)) continue;
+                                  if (ctx.expired()) return ctx.finish();
+                                  ++pairs;
+                                  const int L = th ? 2 * NB : NB + 1; // every subset of the new configuration at least once (thorough: twice)
+                                  for (int k = 1; k < 3 * NA; ++k) run_switch(ctx, a, b, REC[ri][0], REC[ri][1], k, L);
+                                }
+                            }
+                  }
+        }
+    ctx.count("switch_pairs_before_after", pairs);
+  }
   ctx.maxi("geometries", ngeom);
   return ctx.finish();
 }
